@@ -788,7 +788,12 @@ func (s *sharedEntryAttributes) GetHighestPrecedence(result LeafVariantSlice, on
 
 func (s *sharedEntryAttributes) getHighestPrecedenceLeafValue(ctx context.Context) (*LeafEntry, error) {
 	for _, x := range []string{"existing", "default"} {
-		lv := s.leafVariants.GetHighestPrecedence(false, true)
+		// the value that rules once the pending deletes are applied; the value of an
+		// intent that is being removed only if nothing else is left
+		lv := s.leafVariants.GetHighestPrecedenceRemaining()
+		if lv == nil {
+			lv = s.leafVariants.GetHighestPrecedence(false, true)
+		}
 		if lv != nil {
 			return lv, nil
 		}
